@@ -12,6 +12,7 @@
 #include <pthread.h>
 #include <execinfo.h>
 #include <dlfcn.h>
+#include <fcntl.h>
 #include "vf.h"
 
 int  vf_tune[8] = {0, 20, 10, 200, 200, 100, 30, 10};
@@ -85,13 +86,27 @@ static vf_block *ht_find(const void *p)
     return NULL;
 }
 
+/* diagnostic only (VF_GROWTH_SITES=<file>): which call site asked for the growth of a factor array */
+static const char *vf_growth_log = NULL;
+__attribute__((constructor)) static void growth_init(void) { vf_growth_log = getenv("VF_GROWTH_SITES"); }
+static void growth_site(void)
+{
+    void *bt[12]; int nb = backtrace(bt, 12); char line[256] = ""; size_t o = 0; int seen = 0;
+    for (int i = 0; i < nb && o + 60 < sizeof line; i++) {
+        Dl_info di; if (!dladdr(bt[i], &di) || !di.dli_sname) continue;
+        if (strstr(di.dli_sname, "LUMemXpand")) { seen = 1; continue; }
+        if (seen) { o += snprintf(line + o, sizeof line - o, "%s+0x%lx\n", di.dli_sname, (unsigned long)((char *)bt[i] - (char *)di.dli_saddr)); break; }
+    }
+    if (!o) return;
+    int fd = open(vf_growth_log, O_WRONLY | O_APPEND | O_CREAT, 0644); if (fd >= 0) { if (write(fd, line, o) < 0) {} close(fd); }
+}
 void *vf_malloc(size_t size, const char *file, int line, const char *func)
 {
     if (vf_sched_point) vf_sched_point(1);
     pthread_mutex_lock(&ht_mu);
     long serial = ++vf_alloc_serial;
     int is_expand = func && (strstr(func, "expand") || strstr(func, "LUMemXpand"));
-    if (is_expand) vf_expand_requests++;
+    if (is_expand) { vf_expand_requests++; if (vf_growth_log) growth_site(); }
     if (vf_fail_k > 0 && (!vf_fail_func || (func && strstr(func, vf_fail_func)))) {
         if (++vf_fail_seen == vf_fail_k || (vf_fail_sticky && vf_fail_seen > vf_fail_k)) { vf_fail_fired++; pthread_mutex_unlock(&ht_mu); return NULL; }
     }
